@@ -17,6 +17,8 @@ NAMES = ["a", "A", "b", "caf\u00e9", "cafe\u0301", "\u00c5", "A\u030a", "\u212b"
 
 def main_(seed, nscen):
     warnings.simplefilter("ignore")
+    from allmydata.util import cputhreadpool
+    cputhreadpool._DISABLED = True      # zfec and RSA key generation run inline: no cross-thread wake-ups to lose, reproducible schedules
     import time
     from twisted.internet import defer, reactor
     from allmydata import client, uri
